@@ -674,6 +674,24 @@ func c01KindList() []c01Kind {
 				}
 			})
 		}},
+		// numbers the wire stores in 16 bits but the message carries in 32: high bits that a truncating serialiser drops, so
+		// the signature over the genuine bytes still verifies — the message is nevertheless not what was signed
+		{"qe-isvsvn-high-bits", "3", func(rng *rand.Rand, s *world.Spec) {
+			k := uint32(1 + rng.IntN(65535))
+			msg(s, func(q *pb.QuoteV4) { qrep(q).IsvSvn += k << 16 })
+		}},
+		{"qe-isvprodid-high-bits", "3", func(rng *rand.Rand, s *world.Spec) {
+			k := uint32(1 + rng.IntN(65535))
+			msg(s, func(q *pb.QuoteV4) { qrep(q).IsvProdId += k << 16 })
+		}},
+		{"hdr-version-high-bits", "1", func(rng *rand.Rand, s *world.Spec) {
+			k := uint32(1 + rng.IntN(65535))
+			msg(s, func(q *pb.QuoteV4) { q.Header.Version += k << 16 })
+		}},
+		{"hdr-keytype-high-bits", "1", func(rng *rand.Rand, s *world.Spec) {
+			k := uint32(1 + rng.IntN(65535))
+			msg(s, func(q *pb.QuoteV4) { q.Header.AttestationKeyType += k << 16 })
+		}},
 		{"qe-reportdata-changed-after-signing", "23", func(rng *rand.Rand, s *world.Spec) {
 			msg(s, func(q *pb.QuoteV4) { xorByte(rng, qrep(q).ReportData) })
 		}},
